@@ -325,10 +325,7 @@ func slice(fr *frame, x, lo, hi, max value) value {
 func lookup(fr *frame, instr *ssa.Lookup, x, idx value) value {
 	switch x := x.(type) {
 	case *omap:
-		if hasSym(idx) {
-			idx = fr.concretizeDeep(idx, "map.key")
-		}
-		v, ok := x.lookup(idx)
+		v, ok := x.lookupF(fr, idx)
 		if !ok {
 			v = zero(instr.X.Type().Underlying().(*types.Map).Elem())
 		} else {
@@ -1057,11 +1054,7 @@ func callBuiltin(caller *frame, fn *ssa.Builtin, args []value) value {
 		return nil
 
 	case "delete": // delete(map[K]value, K)
-		k := args[1]
-		if hasSym(k) {
-			k = caller.concretizeDeep(k, "delete.key")
-		}
-		args[0].(*omap).delete(k)
+		args[0].(*omap).deleteF(caller, args[1])
 		return nil
 
 	case "clear":
